@@ -21,12 +21,16 @@ namespace CrCube
 inductive PCell where
   | num (q : Rat)          -- a JSON number
   | unavail (code : Int)   -- `{"?": code}`: the back end marks the value unavailable
+  | null                   -- JSON `null` / Python `None` (how a NaN survives a strict JSON encoder)
   deriving DecidableEq, Repr, Inhabited
 
-/-- `np.nan if isinstance(x, dict) else x` -/
+/-- `np.array(tuple(np.nan if isinstance(x, dict) else x for x in data), dtype=np.float64)`:
+    a dict becomes NaN by the comprehension, a `None` by the float64 conversion of the array
+    (and, for the result arrays, `.astype(np.float64)`) -/
 def PCell.decode : PCell → Val
   | .num q => .fin q
   | .unavail _ => .nan
+  | .null => .nan
 
 /-- the measure payloads of `result` (absent measure = `none`) -/
 structure Payloads where
